@@ -428,6 +428,13 @@ callers:
 			}
 		}
 	}
+	// W8 — no verdict is overwritten: an error carried around a loop of the command (checkErr = check(member)) is tested
+	// inside the loop or combined with its previous value; otherwise only the last member decides
+	for _, fn := range fns {
+		for _, lost := range lostLoopErrors(fn) {
+			r.Viol(fmt.Sprintf("%s#W8:verdict-kept", ssaQName(fn)), p.Rel(instrPos(lost)), "an error value assigned in a loop overwrites the one of the previous iteration without that one having been tested: only the last member of the archive decides the result")
+		}
+	}
 	// format's checkOnly argument derives from the Check flag
 	k = 0
 	for _, fn := range fns {
@@ -438,6 +445,10 @@ callers:
 					continue
 				}
 				k++
+				if len(call.Call.Args) < 2 {
+					r.Undecided("format takes no checkOnly argument: where the --check comparison happens is not modelled")
+					continue
+				}
 				arg := call.Call.Args[1]
 				okC := loadsField(arg, "Check")
 				if prm, ok := arg.(*ssa.Parameter); ok {
@@ -956,3 +967,72 @@ func unspill(v ssa.Value) ssa.Value {
 }
 
 var _ = packages.NeedName
+
+// lostLoopErrors: the instructions that compute an error which replaces, around a loop, the error of the previous
+// iteration although that one was never tested inside the loop nor flows into the new one.
+func lostLoopErrors(fn *ssa.Function) []ssa.Instruction {
+	var out []ssa.Instruction
+	for _, h := range fn.Blocks {
+		loop := naturalLoop(h)
+		if loop == nil {
+			continue
+		}
+		for _, ins := range h.Instrs {
+			phi, ok := ins.(*ssa.Phi)
+			if !ok {
+				break
+			}
+			if !isErrorType(phi.Type()) {
+				continue
+			}
+			// the values carried over the back edges, through the merges inside the loop
+			merged := map[ssa.Value]bool{phi: true}
+			var leaves []ssa.Value
+			var walk func(v ssa.Value)
+			walk = func(v ssa.Value) {
+				if merged[v] {
+					return
+				}
+				if ph, ok := v.(*ssa.Phi); ok && loop[ph.Block()] {
+					merged[v] = true
+					for _, e := range ph.Edges {
+						walk(e)
+					}
+					return
+				}
+				leaves = append(leaves, v)
+			}
+			for i, pred := range h.Preds {
+				if loop[pred] && h.Dominates(pred) {
+					walk(phi.Edges[i])
+				}
+			}
+			// the carried value is tested (or used at all: returned, joined, passed on) inside the loop
+			usedInLoop := false
+			for m := range merged {
+				refs := m.Referrers()
+				if refs == nil {
+					continue
+				}
+				for _, ref := range *refs {
+					if _, isPhi := ref.(*ssa.Phi); isPhi || !loop[ref.Block()] {
+						continue
+					}
+					usedInLoop = true
+				}
+			}
+			if usedInLoop {
+				continue
+			}
+			for _, l := range leaves {
+				if k, ok := l.(*ssa.Const); ok && k.IsNil() {
+					continue
+				}
+				if li, ok := l.(ssa.Instruction); ok && loop[li.Block()] {
+					out = append(out, li)
+				}
+			}
+		}
+	}
+	return out
+}
